@@ -55,3 +55,13 @@ field("_SplitterNonUniform_iter.relative", "bool")
 field("_SplitterNonUniform_iter.splits", "list[int]")
 field("Fiber.g_active0", "int")      # ghost: the active range getActive() reports (owner/attrs delegation abstracted)
 field("Fiber.g_active1", "int")
+
+# model/format.py
+from pyvc.values import VMap
+field("Format.tensor", "Tensor")
+field("Format.spec", "map")
+VMap.FIELDS["Format.spec"] = {"hbits": "int", "pbits": "int", "rhbits": "int", "fhbits": "int", "cbits": "int",
+                              "format": "str", "layout": "str"}
+field("Tensor.ranks", "list[Rank]")
+field("Tensor.g_rank_ids", "list[str]")     # ghost: what getRankIds() returns (one id per rank, in order)
+field("Fiber.g_shape1", "opt[int]")         # ghost: getShape(all_ranks=False) of this fiber (rank shape delegation)
